@@ -668,7 +668,16 @@ func genProgram(r *R, f Feat) *Program {
 	}
 	if f.ErrorsPct > 0 && r.P(f.ErrorsPct) {
 		at := r.N(len(main.Segs) + 1)
-		if len(main.Segs) > 0 && strings.Contains(main.Segs[0], "extends") {
+		partAt := -1
+		for i := range p.Templates {
+			if strings.Contains(p.Templates[i].Name, "part") {
+				partAt = i
+			}
+		}
+		if partAt >= 0 && r.P(35) {
+			// the failure sits in an included template (if main happens to include it)
+			p.Templates[partAt].Segs = append(p.Templates[partAt].Segs, g.failing())
+		} else if len(main.Segs) > 0 && strings.Contains(main.Segs[0], "extends") {
 			// inside a block so that it is rendered
 			main.Segs = append(main.Segs, g.open("block b0")+g.failing()+g.open("endblock"))
 		} else {
